@@ -689,6 +689,47 @@ func runC05(c *Ctx) {
 				if !ok || typeQName(fa.X.Type()) != tocT || fieldName(fa) != "LinkName" {
 					return
 				}
+				// the raw name may also travel through a loop-carried variable before it is used as a key
+				carried := map[ssa.Value]bool{ssa.Value(ld): true}
+				work := []ssa.Value{ld}
+				for len(work) > 0 {
+					v := work[0]
+					work = work[1:]
+					if v.Referrers() == nil {
+						continue
+					}
+					for _, r := range *v.Referrers() {
+						switch y := r.(type) {
+						case *ssa.Phi:
+							if !carried[y] {
+								carried[y] = true
+								work = append(work, y)
+							}
+						case *ssa.ChangeType:
+							if !carried[y] {
+								carried[y] = true
+								work = append(work, y)
+							}
+						case *ssa.Lookup:
+							if y.Index == v {
+								nLink++
+								c.bad(c.fnKey(f)+":LinkName→map-key", y.Pos(), "the raw TOC link name (not passed through cleanEntryName) is used as a map key: a second hop of a hardlink chain spelled ./x or /a/b resolves in one store and not in the other")
+							}
+						case *ssa.Call:
+							if v == ssa.Value(ld) {
+								continue // direct uses are classified below
+							}
+							if t := y.Call.StaticCallee(); t != nil && t.Name() == "cleanEntryName" {
+								continue
+							}
+							if id := calleeID(y); strings.HasPrefix(id, "fmt.") {
+								continue
+							}
+							nLink++
+							c.bad(c.fnKey(f)+":LinkName→"+calleeID(y), y.Pos(), "a variable that may hold the raw TOC link name is passed on without cleanEntryName")
+						}
+					}
+				}
 				for _, r := range *ld.Referrers() {
 					switch x := r.(type) {
 					case *ssa.Call:
@@ -758,6 +799,8 @@ func runC05(c *Ctx) {
 	}
 
 	clauseSortedChunks(c, "C05.g")
+	clausePreReadAccounting(c, "C05.h")
+	clauseDirLinkCount(c, "C05.i")
 	c.assume("bolt transactions are isolated; json.Decoder reads through the TeeReader only")
 }
 
